@@ -71,10 +71,15 @@ class Arena:
         self.lockdir = ws_lock_dir(self.root, self.ws)
         os.makedirs(self.lockdir)
         self.lockfile = os.path.join(self.lockdir, "lockfile")
-        if pre != "none":
-            with open(self.lockfile, "w") as fh:
-                fh.write({"empty": "", "garbage": "not a pid\n", "deadpid": str(dead_pid())}[pre])
         self.procs = [G.Contender(binary, self.root, self.ws) for _ in range(n)]
+        if pre != "none":
+            # a lock file left behind: its content must not matter (the PID of a live unrelated process — PID reuse —
+            # or of a contender itself included)
+            content = {"empty": "", "garbage": "not a pid\n", "deadpid": str(dead_pid()), "whitespace": " \n\t ",
+                       "hugepid": "99999999999999999999", "livepid": str(os.getpid()), "ownpid": str(self.procs[0].pid),
+                       "negpid": "-1", "zeropid": "0"}[pre]
+            with open(self.lockfile, "w") as fh:
+                fh.write(content)
         for p in self.procs:
             p.lock()
         self.unlocking = [False] * n      # Unlock() called, os.Remove still pending
@@ -212,13 +217,13 @@ def gen_schedules(ctx, quick):
         for s in two[pre]:
             out.append((2, pre, s, "all-2-interleavings"))
     # other pre-existing contents: sample
-    for pre in ("garbage", "deadpid"):
-        for s in rng.sample(two["empty"], 40 if quick else len(two["empty"])):
+    for pre in ("garbage", "deadpid", "whitespace", "hugepid", "livepid", "ownpid", "negpid", "zeropid"):
+        for s in rng.sample(two["empty"], 25 if quick else len(two["empty"])):
             out.append((2, pre, s, "all-2-interleavings"))
     # crash / unlock insertions into 2-contender interleavings
     n_ins = 220 if quick else 3000
     for _ in range(n_ins):
-        pre = rng.choice(["none", "empty", "deadpid"])
+        pre = rng.choice(["none", "empty", "deadpid", "livepid", "ownpid", "hugepid"])
         s = list(rng.choice(two["none" if pre == "none" else "empty"]))
         k = rng.randrange(len(s) + 1)
         who = rng.randrange(2)
@@ -243,7 +248,7 @@ def gen_schedules(ctx, quick):
                     out.append((3, pre, s, "release-window-3"))
     # three contenders: random schedules
     for _ in range(150 if quick else 3000):
-        pre = rng.choice(["none", "empty", "garbage", "deadpid"])
+        pre = rng.choice(["none", "empty", "garbage", "deadpid", "livepid", "ownpid", "whitespace"])
         s = []
         for _ in range(rng.randrange(8, 45)):
             r = rng.random()
